@@ -152,6 +152,43 @@ def writer_before_backlog(k: Kit, rule: str) -> None:
                   'target is installed: data and EOF released by the flush '
                   'bypass the target and the channel stays paused',
                   k.loc(fi, n), g.describe_path(w) if w else None)
+    # the same re-entrancy on the way out: the old target is taken out of
+    # the table before feeding is resumed, or the released data goes to the
+    # writer that was just closed
+    cw = k.func('process.SSHProcess.clear_writer')
+    g2 = k.cfg(cw)
+    dels = [n.id for n in g2.nodes if n.kind == 'stmt' and
+            isinstance(n.ast, ast.Delete) and any(
+                isinstance(t, ast.Subscript) and
+                dotted(t.value) == 'self._writers' for t in n.ast.targets)]
+    for n, c in k.calls_named(cw, 'resume_feeding', 'self'):
+        w = g2.path(g2.entry, n.id, blocked_nodes=dels)
+        rep.check(bool(dels) and w is None, rule,
+                  key(cw, 'old target removed before feeding resumes'),
+                  'del self._writers[datatype] precedes resume_feeding()',
+                  'feeding is resumed (which re-enters data_received) while '
+                  'the writer being cleared is still installed: the data '
+                  'released goes to the closed writer and is lost, and the '
+                  're-redirected process never finishes', k.loc(cw, n))
+    # ... and a writer that was cleared while paused may still ask for a
+    # resume later: that must not raise
+    rf = k.func('process.SSHProcess.resume_feeding')
+    g3 = k.cfg(rf)
+    for n, c in k.calls_named(rf, 'remove'):
+        if dotted(c.func.value) != 'self._paused_write_streams':
+            continue
+        w = g3.guarded_by(n.id, lambda x: True if x.kind == 'atom' and
+                          isinstance(x.ast, ast.Compare) and
+                          isinstance(x.ast.ops[0], ast.In) and
+                          dotted(x.ast.comparators[0]) ==
+                          'self._paused_write_streams' else None)
+        rep.check(w is None, rule,
+                  key(rf, 'resume tolerates an already resumed stream'),
+                  'removal from _paused_write_streams cannot raise',
+                  'set.remove() raises KeyError when the stream was already '
+                  'resumed on the writer\'s behalf (clear_writer does that): '
+                  'the old writer\'s task dies, its queue is never joined '
+                  'and process.wait() hangs', k.loc(rf, n))
 
 
 INBOUND_STATES = {
